@@ -1070,7 +1070,12 @@ pub fn exec(cfg: &Config, ops: &[HOp]) -> ExecResult {
         // ---- state check at transaction ends / quiescent points ----
         let quiescent = spec.txs.iter().all(|t| t.is_none());
         if let Some((end, sidx)) = ended {
-            if quiescent {
+            // C02 looks at every transaction end: what a fresh reader finds must be the
+            // committed state (transactions still open elsewhere contribute nothing)
+            if quiescent || prop == "C02" {
+                if !quiescent {
+                    *probes.entry("state_checked_while_other_transactions_open").or_insert(0) += 1;
+                }
                 let d_real = match guarded(|| real.dump(n_slots, e_slots)) {
                     Ok(d) => d,
                     Err(p) => {
@@ -1081,10 +1086,14 @@ pub fn exec(cfg: &Config, ops: &[HOp]) -> ExecResult {
                 let d_pin = guarded(|| pin.dump(n_slots, e_slots)).unwrap_or_default();
                 let d_spec = spec_dump(&spec.cur);
                 let mut diverged = false;
+                let mut beyond_pinned = false;
                 for (key, want) in &d_spec {
                     let got = d_real.get(key).cloned().unwrap_or_default();
                     if got != *want {
                         diverged = true;
+                        if Some(&got) != d_pin.get(key) {
+                            beyond_pinned = true;
+                        }
                         if prop == "C02" {
                             let kinds: Vec<&str> = tx_kinds[sidx].iter().copied().collect();
                             let kinds = if kinds.is_empty() { "none".to_string() } else { kinds.join("+") };
@@ -1098,10 +1107,19 @@ pub fn exec(cfg: &Config, ops: &[HOp]) -> ExecResult {
                     }
                 }
                 if diverged {
-                    *probes.entry("run_stopped_on_state_divergence").or_insert(0) += 1;
-                    break 'ops;
+                    // C02: a state that deviates from the specification exactly as the pinned
+                    // tree's does on the same history is a (listed) finding of that tree; the run
+                    // goes on, so that later transaction ends are still judged (real = spec or
+                    // real = pinned tree, per access path). Anything else ends the run.
+                    if prop == "C02" && !beyond_pinned {
+                        *probes.entry("run_continued_after_state_divergence_shared_with_pinned_tree").or_insert(0) += 1;
+                    } else {
+                        *probes.entry("run_stopped_on_state_divergence").or_insert(0) += 1;
+                        break 'ops;
+                    }
+                } else {
+                    *probes.entry("transaction_end_state_equal_to_spec").or_insert(0) += 1;
                 }
-                *probes.entry("transaction_end_state_equal_to_spec").or_insert(0) += 1;
             }
         }
     }
@@ -1313,7 +1331,8 @@ pub fn generate(rng: &mut Prng, property: &str, thorough: bool) -> (Config, Vec<
             g.emit(op);
         }
     }
-    if c02 {
+    let c02_single = c02 && g.rng.chance(1, 2);
+    if c02_single {
         // one transaction at a time under the microscope (session 0); the others only do
         // auto-commit work and look
         while g.ops.len() < len {
